@@ -18,6 +18,22 @@ CLAIMS = {
                      "applied edits are pairwise disjoint, a conflicting edit is absent entirely; for all positions/lengths/texts "
                      "within <=3 patches x <=2 variants (quick) / <=4 patches (thorough).",
                 note="Patch stream contract as in C10. The legacy un-merged route (LintedFile.source_patches is None) is outside the claim."),
+    "C23": dict(design_ref="§3 C23", technique=SYM,
+                text="Bounded model checking of the real position kernel (newline scan, bisect table, source_position_dict_from_slice, "
+                     "PositionMarker, SQLBaseError/SQLLintError/SQLParseError.to_dict, LintFix.to_dict incl. all edit types and the "
+                     "single-fix hoisting) over a source of unbounded length with K symbolic newline positions and arbitrary in-bounds "
+                     "anchor slices: line/col lie in the file, equal the reference for the anchor's first source character, and every "
+                     "start/end offset agrees with its line/col.",
+                note="Assumes anchors carry in-bounds source slices (C01 kernel). That a rule anchors the right segment is outside."),
+    "C31": dict(design_ref="§3 C31", technique=SYM,
+                text="For texts with exactly K newlines (K<=6 quick, <=12 thorough) of UNBOUNDED length and every offset, the real "
+                     "iter_indices_of_newlines + get_line_pos_of_char_pos (source and templated tables) and infer_next_position equal "
+                     "the reference (1 + newlines before offset, offset - last newline).",
+                note="Text abstracted to length + newline positions (the only observations these functions make)."),
+    "C33": dict(design_ref="§3 C33", technique=SYM,
+                text="Real deduplicate_in_source_space + source_signature over N<=3 (thorough 4) violations with symbolic line/col, code, "
+                     "description, fix text and source fix: output sorted by (line, col), no two equal signatures, every input signature kept.",
+                note="Violation objects are real SQLLintError/SQLParseError with duck-typed rule/segment/fix stubs."),
 }
 
 NOT_APPLICABLE = {
@@ -27,6 +43,6 @@ NOT_APPLICABLE = {
     "C16": "oracle is SQLite executing the query before/after; no solver model of SQL semantics is within reach",
     "C17": "fixpoint of the whole rule set over arbitrary SQL; not encodable",
 }
-for _p in ["C01", "C02", "C03", "C04", "C05", "C06", "C07", "C08", "C09", "C15", "C18", "C19", "C20", "C21", "C22", "C23",
-           "C24", "C25", "C26", "C27", "C28", "C29", "C31", "C32", "C33", "C34"]:
+for _p in ["C01", "C02", "C03", "C04", "C05", "C06", "C07", "C08", "C09", "C15", "C18", "C19", "C20", "C21", "C22",
+           "C24", "C25", "C26", "C27", "C28", "C29", "C32", "C34"]:
     NOT_APPLICABLE.setdefault(_p, "check not built yet (planned, see DESIGN.md §3); not claimed until its harness is committed")
